@@ -282,6 +282,29 @@ func init() {
 			}
 		}
 		c.RequireCallers("C06g", dk+"Keeper.GetDisableDualstakingHook", dk+"Hooks.AfterDelegationModified", dk+"Hooks.BeforeDelegationRemoved")
+		// after a slash every delegator of every recorded validator is balanced: one delegator's
+		// failure (e.g. a vault below its minimum) must not stop the others from being balanced
+		for _, lc := range [][2]string{{"BalanceValidatorsDelegators", dk + "Keeper.BalanceDelegator"}, {"HandleSlashedValidators", dk + "Keeper.BalanceValidatorsDelegators"}} {
+			f := c.Fn(dk + "Keeper." + lc[0])
+			if f == nil {
+				continue
+			}
+			sites := c.CallsByName(f, false, lc[1])
+			key := "C06g/" + lc[0] + "/visits-every-element"
+			if len(sites) != 1 {
+				c.Fail(key, c.P.Pos(f.Pos()), "expected one "+lc[1]+" call in "+lc[0]+", found "+itoa(len(sites)))
+				continue
+			}
+			found, ok, at := loopLeavesOnlyAtHeader(f, sites[0].Instr)
+			switch {
+			case !found:
+				c.Fail(key, c.P.InstrPos(sites[0].Instr), lc[1]+" is not called in a loop over all elements")
+			case !ok:
+				c.Fail(key, c.P.InstrPos(at), "the loop in "+lc[0]+" can stop before its last element (break/return inside): the remaining delegators of a slashed validator are never balanced, so their provider delegations stay above their validator delegations")
+			default:
+				c.OK(key, c.P.InstrPos(sites[0].Instr), "loop left only at range exhaustion")
+			}
+		}
 
 		c.Rule("C06f hook disabling: SetDisableDualstakingHook is called only by the ante RedelegationFlager; a transaction gets the flag only if it carries redelegations and nothing else: every message that is not a staking MsgBeginRedelegate sets the `others` flag on every path, and redelegations&&others rejects the transaction before the flag is written")
 		c.RequireCallers("C06f", dk+"Keeper.SetDisableDualstakingHook", "x/dualstaking/ante.RedelegationFlager.DisableRedelegationHooks")
@@ -362,6 +385,56 @@ func init() {
 				c.OK("C06f/AnteHandle/flag-decided-before-next", c.P.Pos(ah.Pos()), "unwrap authz, decide flag, then continue")
 			} else {
 				c.Fail("C06f/AnteHandle/flag-decided-before-next", c.P.Pos(ah.Pos()), "the transaction continues without the hook flag being (re)decided: "+r.Witness)
+			}
+		}
+		// the flag decision looks at every message of the transaction: unwrapAuthz only ever adds to its result
+		if ua := c.Fn("x/dualstaking/ante.RedelegationFlager.unwrapAuthz"); ua != nil {
+			n, bad := 0, ""
+			var at ssa.Instruction
+			for _, s := range c.SuccessReturns(ua) {
+				ret := s.Instr.(*ssa.Return)
+				h, isPhi := RetVal(ret, 0).(*ssa.Phi)
+				if !isPhi {
+					bad, at = "returns "+trunc(ir.Desc(RetVal(ret, 0)), 80)+", not an accumulated list", ret
+					continue
+				}
+				seen := map[ssa.Value]bool{h: true}
+				var leafOK func(v ssa.Value) bool
+				leafOK = func(v ssa.Value) bool {
+					if seen[v] {
+						return true
+					}
+					seen[v] = true
+					switch x := v.(type) {
+					case *ssa.Phi:
+						for _, e := range x.Edges {
+							if !leafOK(e) {
+								return false
+							}
+						}
+						return true
+					case *ssa.Const:
+						return x.IsNil()
+					case *ssa.Call:
+						if ir.CalleeName(&x.Call) == "builtin:append" {
+							n++
+							return leafOK(x.Call.Args[0])
+						}
+					}
+					bad, at = "assigns "+trunc(ir.Desc(v), 80)+" to the flattened list instead of appending to it", ret
+					return false
+				}
+				for _, e := range h.Edges {
+					leafOK(e)
+				}
+			}
+			switch {
+			case bad != "":
+				c.Fail("C06f/unwrapAuthz/only-appends", c.P.InstrPos(at), "unwrapAuthz "+bad+": messages seen earlier in the transaction are dropped from the list the hook-flag decision is made on, so a mixed transaction can pass as redelegations only")
+			case n < 2:
+				c.Undecided("C06f: expected the two appends (plain message, unwrapped MsgExec) behind unwrapAuthz's result, found %d", n)
+			default:
+				c.OK("C06f/unwrapAuthz/only-appends", c.P.Pos(ua.Pos()), "the result is nil extended by append on every path")
 			}
 		}
 		if nf := c.Fn("x/dualstaking/ante.NewRedelegationFlager"); nf != nil {
